@@ -1367,6 +1367,26 @@ def correspondence(chk, tier):
                     dict(function="angle_fse_simpleshear", strain=float(s)))
             bump("function", "angle_fse_simpleshear")
             chk.note_case(("angle", float(s)), nontrivial=s != 0)
+        # the same strain VALUES in other representations (Python / NumPy integers, binary32, 0-d / 1-element arrays, lists): the
+        # model is fed the float value, the implementation the presentation (seeded change C13f: integer reciprocal)
+        hist.setdefault("strain_presentation", {})
+        for sv in [0.0, 1.0, 2.0, 3.0, 5.0, 10.0, 1000.0, 0.5, 0.25] + [float(v) for v in rng.integers(2, 40, 4 if tier == "quick" else 40)]:
+            for kind in STRAIN_PRESENTATIONS[1:]:
+                sp = present_strain(sv, kind)
+                if sp is None:
+                    continue
+                r = call(rec, ut.angle_fse_simpleshear, sp)
+                val = None
+                if r[0] == "OK":
+                    try:
+                        val = float(np.asarray(r[1], dtype=float).reshape(-1)[0])
+                    except Exception:  # noqa: BLE001
+                        r = ("ERR", "TypeError")
+                run.add("fse_angle", [], [sv], ("OK", [val]) if r[0] == "OK" else ("ERR", r[1]),
+                        dict(function="angle_fse_simpleshear", strain=sv, strain_as=kind, gamma=2 * sv),
+                        rtol=1e-6 if kind == "np.float32" else RTOL)
+                bump("function", "angle_fse_simpleshear"); bump("strain_presentation", kind)
+                chk.note_case(("angle", sv, kind), nontrivial=sv != 0)
         # smallest_angle: the compiled numba kernel vs the model (and the generated definitions)
         hist.setdefault("angle_kind", {})
         for c in gen_angles(chk, tier):
@@ -1632,14 +1652,37 @@ def oracle_F(dg, ut, F, Q, style="default"):
     return fails
 
 
-def oracle_shear(dg, ut, g, style="default"):
+STRAIN_PRESENTATIONS = ("float", "int", "np.int64", "np.int32", "np.float32", "0-d int array", "int array", "float array")   # lists are refused (TypeError) by the unchanged code
+
+
+def present_strain(s, kind):
+    """the strain value s handed to angle_fse_simpleshear in another representation (integer kinds only for whole numbers:
+    None otherwise); the helper is a closed form of the VALUE, whatever its dtype / container (seeded change C13f)"""
+    whole = float(s) == int(s)
+    if kind == "float":
+        return float(s)
+    if kind == "np.float32":
+        return np.float32(s) if float(np.float32(s)) == float(s) else None
+    if kind == "float array":
+        return np.array([float(s)])
+    if not whole:
+        return None
+    return {"int": int(s), "np.int64": np.int64(int(s)), "np.int32": np.int32(int(s)), "0-d int array": np.array(int(s)),
+            "int array": np.array([int(s)])}[kind]
+
+
+def oracle_shear(dg, ut, g, style="default", strain_as="float"):
     F = np.eye(3)
     F[1, 0] = g
     _, axv = fse_call(dg, F, style)
-    th = np.deg2rad(ut.angle_fse_simpleshear(g / 2))
+    sp = present_strain(g / 2, strain_as)
+    if sp is None:
+        sp = g / 2
+    th = float(np.asarray(np.deg2rad(ut.angle_fse_simpleshear(sp)), dtype=float).reshape(-1)[0])
     tgt = np.array([np.cos(th), np.sin(th), 0.0])
     if g > 1e-3 and not same_axis(np.asarray(axv), tgt, 1e-7 / min(1.0, g)):
-        return [f"simple shear gamma={g!r}: axis {list(axv)} differs from the closed-form angle {float(np.rad2deg(th))!r} deg"]
+        return [f"simple shear gamma={g!r}: axis {list(axv)} differs from the closed-form angle {float(np.rad2deg(th))!r} deg"
+                f" of angle_fse_simpleshear({sp!r}) [strain given as {strain_as}]"]
     return []
 
 
@@ -1731,12 +1774,19 @@ def search(chk, extra=()):
                 add(dict(call="smallest_angle", vector=[hx(x) for x in c["v"]], axis=[hx(x) for x in c["a"]],
                          plane=None if c["p"] is None else [hx(x) for x in c["p"]], style=style), fails)
                 break
-    for g in (0.5, 1.0, 2.0, 5.0):
+    for g in (0.5, 1.0, 2.0, 5.0, 4.0, 6.0, 20.0, 7.0):
+        hit = False
         for style in FSE_STYLES:
-            fails = oracle_shear(dg, ut, g, style)
-            if fails:
-                add(dict(call="simple_shear", gamma=hx(g), style=style, call_style=describe_fse_style(style)),
-                    [f"[{describe_fse_style(style)}] " + f for f in fails])
+            for strain_as in STRAIN_PRESENTATIONS:
+                if present_strain(g / 2, strain_as) is None:
+                    continue
+                fails = oracle_shear(dg, ut, g, style, strain_as)
+                if fails:
+                    add(dict(call="simple_shear", gamma=hx(g), style=style, call_style=describe_fse_style(style), strain_as=strain_as),
+                        [f"[{describe_fse_style(style)}] " + f for f in fails])
+                    hit = True
+                    break
+            if hit:
                 break
     return found
 
@@ -1821,7 +1871,7 @@ def replay(d):
         fails = oracle_F(dg, ut, np.array([u(x) for x in i["F"]]).reshape(3, 3), np.array([u(x) for x in i["Q"]]).reshape(3, 3),
                          i.get("style", "default"))
     else:
-        fails = oracle_shear(dg, ut, u(i["gamma"]), i.get("style", "default"))
+        fails = oracle_shear(dg, ut, u(i["gamma"]), i.get("style", "default"), i.get("strain_as", "float"))
     for f in fails:
         print("still fails:", f)
     return 1 if fails else 0
